@@ -20,6 +20,10 @@ def filterOf (id : Nat) : FExpr :=
 
 def parseItem (tok : String) : Option Item :=
   match tok.toList with
+  | 'M' :: rest =>    -- a callable with a non-const call operator (that could also be printed): a callable
+    match (String.ofList rest).splitOn "." with
+    | [id, h] => do pure (.lazy (← id.toNat?) (← unhex h))
+    | _ => none
   | 'L' :: rest =>
     match (String.ofList rest).splitOn "." with
     | [id, h] => do pure (.lazy (← id.toNat?) (← unhex h))
@@ -27,24 +31,19 @@ def parseItem (tok : String) : Option Item :=
   | _ :: rest => (unhex (String.ofList rest)).map .text
   | [] => none
 
-/-- The items of one statement.  An item of kind `x` is a value whose inserter puts the statement's
-string stream into the failed state and writes nothing (`os.setstate(std::ios_base::failbit)`):
-as with every `std::ostream`, what is inserted afterwards is not appended any more, while the
-operands — in particular callables streamed for lazy evaluation — are still evaluated.  That
-iostream behaviour is modelled here, in the driver: the items behind the first `x` carry no text. -/
-def parseItemsGo : Bool → List String → Option (List Item)
-  | _, [] => some []
-  | failed, tok :: rest =>
-    match tok.toList with
-    | 'x' :: _ => (parseItemsGo true rest).map (Item.text [] :: ·)
-    | _ =>
-      match parseItem tok with
-      | some (.text t) => (parseItemsGo failed rest).map (Item.text (if failed then [] else t) :: ·)
-      | some (.lazy id t) => (parseItemsGo failed rest).map (Item.lazy id (if failed then [] else t) :: ·)
-      | none => none
+/-- An item of kind `x` is a value whose inserter puts the statement's string stream into the failed
+state; the iostream rule for what follows is `Log.silence` (Model/Log). -/
+def parseRaw (tok : String) : Option RawItem :=
+  match tok.toList with
+  | 'x' :: _ => some .fail
+  | _ =>
+    match parseItem tok with
+    | some (.text t) => some (.text t)
+    | some (.lazy id t) => some (.lazy id t)
+    | none => none
 
 def parseItems (items : String) : Option (List Item) :=
-  if items = "_" then some [] else parseItemsGo false (items.splitOn ",")
+  if items = "_" then some [] else ((items.splitOn ",").mapM parseRaw).map (silence false)
 
 def parseOp (tok : String) : Option Op :=
   match tok.splitOn ":" with
